@@ -105,7 +105,8 @@ class Check:
                 real.append((rule, key, k, msg, extra))
         for k, desc, msg in known_hits:
             print("KNOWN-FINDING: property=%s %s %s" % (self.pid, k, desc))
-        rdir = os.path.join(VERIF, "replay", self.pid)
+        OUT = os.environ.get("TDQ_OUT", VERIF)       # scratch runs against seeded trees write elsewhere
+        rdir = os.path.join(OUT, "replay", self.pid)
         for rule, key, k, msg, extra in real:
             os.makedirs(rdir, exist_ok=True)
             p = os.path.join(rdir, _slug(k) + ".json")
@@ -151,8 +152,8 @@ class Check:
             "violations": len(real),
         }
         ev["coverage"].update(self.extra)
-        os.makedirs(os.path.join(VERIF, "evidence"), exist_ok=True)
-        with open(os.path.join(VERIF, "evidence", self.pid + ".json"), "w") as fh:
+        os.makedirs(os.path.join(OUT, "evidence"), exist_ok=True)
+        with open(os.path.join(OUT, "evidence", self.pid + ".json"), "w") as fh:
             json.dump(ev, fh, indent=1)
         print("%s: %d obligations, %d discharged, %d known findings, %d violations (%.1fs)" % (
             self.pid, n_ob, n_ok, len(known_hits), len(real), wall))
